@@ -207,8 +207,11 @@ pub fn run(ctx: &Ctx, evidence: Option<&PathBuf>) -> i32 {
     let n_samples = if small { 6 } else { 64 };
     ctx.run_fixed("header-version-type", 256, |c| {
         let version = c.index as u8;
+        if c.ctx.miri() && !matches!(version, 0 | 1 | 2 | 255) {
+            return;
+        }
         let fields = sampled_fields(&mut c.rng, n_samples);
-        for t in 0..=255u8 {
+        for t in (0..=255u8).step_by(if c.ctx.miri() { 5 } else { 1 }) {
             for &(id, len, pad, res) in &fields {
                 if !check_header_bytes(c, model_header(version, t, id, len, pad, res)) {
                     return;
@@ -294,7 +297,7 @@ pub fn run(ctx: &Ctx, evidence: Option<&PathBuf>) -> i32 {
                 viol(c, "flags-validate", format!("validate({v:#x}) = {val:?}"), &[v]);
             }
         }
-        for r in 0..=u16::MAX {
+        for r in (0..=u16::MAX).step_by(if c.ctx.miri() { 7 } else { 1 }) {
             c.l.evaluations += 1;
             let ok = match Role::try_from(r) {
                 Ok(x) => (1..=3).contains(&r) && u16::from(x) == r,
@@ -320,7 +323,7 @@ pub fn run(ctx: &Ctx, evidence: Option<&PathBuf>) -> i32 {
     });
     // ---- padding rule for all 65536 content lengths ---------------------------------------------
     ctx.run_fixed("set-lengths", 1, |c| {
-        for len in 0..=u16::MAX {
+        for len in (0..=u16::MAX).step_by(if c.ctx.miri() { 13 } else { 1 }) {
             let mut h = RecordHeader::new(RecordType::Stdout, 7);
             h.padding_length = 0x55;
             h.set_lengths(len);
@@ -341,6 +344,9 @@ pub fn run(ctx: &Ctx, evidence: Option<&PathBuf>) -> i32 {
     // ---- BeginRequest: all 2^16 roles x 256 flag bytes --------------------------------------------
     ctx.run_fixed("begin-request", 256, |c| {
         let flags = c.index as u8;
+        if c.ctx.miri() && !matches!(flags, 0 | 1 | 254 | 255) {
+            return;
+        }
         let step = if ctx.scale == Scale::Miri { 4099 } else { 1 };
         for role in (0..=u16::MAX).step_by(step) {
             let res = [c.rng.u8(), c.rng.u8(), 0, 0xff, c.rng.u8()];
@@ -384,6 +390,9 @@ pub fn run(ctx: &Ctx, evidence: Option<&PathBuf>) -> i32 {
     // ---- EndRequest / UnknownType --------------------------------------------------------------------
     ctx.run_fixed("end-request", 256, |c| {
         let st = c.index as u8;
+        if c.ctx.miri() && st > 5 && st % 50 != 0 {
+            return;
+        }
         let mut apps = vec![0u32, 1, 0xff, 0x100, 0xffff_ffff, 0x8000_0000, u32::from_be_bytes(*b"ABRT")];
         for _ in 0..if small { 4 } else { 250 } {
             apps.push(c.rng.u32());
@@ -485,6 +494,9 @@ pub fn run(ctx: &Ctx, evidence: Option<&PathBuf>) -> i32 {
     ctx.run_fixed("getvalues-result", n_lim * 8, |c| {
         let bits = (c.index % 8) as u8;
         let limit = limits[(c.index / 8) as usize];
+        if c.ctx.miri() && (c.index / 8) % 9 != 0 {
+            return;
+        }
         let max_prefix = if ctx.scale == Scale::Miri { 9 } else { 40 };
         for plen in 0..=max_prefix {
             let prefix: Vec<u8> = (0..plen).map(|i| 0xC0 | (i as u8 & 0x3f)).collect();
@@ -529,7 +541,7 @@ pub fn run(ctx: &Ctx, evidence: Option<&PathBuf>) -> i32 {
             b"0x01".to_vec(),
             b"1".to_vec(),
         ];
-        for _ in 0..2000 {
+        for _ in 0..if c.ctx.miri() { 40 } else { 2000 } {
             let mut v = c.rng.rbytes(24);
             if c.rng.chance(1, 3) {
                 let base = c.rng.pick(&wire::KNOWN_VARS).as_bytes().to_vec();
@@ -560,7 +572,7 @@ pub fn run(ctx: &Ctx, evidence: Option<&PathBuf>) -> i32 {
     });
 
     // ---- end-of-request sequence, judged on the transport log -------------------------------------------
-    ctx.run_fixed("epilogue", 4 * 9, |c| {
+    ctx.run_fixed("epilogue", if ctx.miri() { 2 } else { 4 * 9 }, |c| {
         use crate::conn::{self, Barrier, ConnCase, End, Need};
         let id = [1u16, 255, 256, 65535][(c.index % 4) as usize];
         let statuses = [
